@@ -190,8 +190,11 @@ def gen_orders(tier, rng):
         for path in paths:
             for part in chunks(perms):
                 for mode in (modes or [MODES[len(cases) % len(MODES)]]):
-                    kind = KINDS[(len(cases) // len(MODES)) % len(KINDS)]
-                    cases.append({"docs": docs, "perms": part, "path": path, "mode": dict(mode, it=kind)})
+                    n0 = len(cases)
+                    kind = KINDS[(n0 // len(MODES)) % len(KINDS)]
+                    # from_dicts / merge: every other block of cases loads all its orders from the SAME parsed documents
+                    share = path in ("from_dicts", "merge") and (n0 // 48 + n0) % 2 == 0
+                    cases.append({"docs": docs, "perms": part, "path": path, "mode": dict(mode, it=kind, share=share)})
 
     F = fixed_sets()
     # deferred resolution x conversion variants: every order of the witness sets through the cheap paths in
@@ -201,6 +204,19 @@ def gen_orders(tier, rng):
         n = len(docs)
         perms = all_perms(n) if (n <= 5 or not quick) else sample_perms(rng, n, 120)
         add(docs, perms, ["from_dicts"] if (quick or not name.startswith("d22")) else CHEAP, MODES)
+    # history through the caller's documents: all orders of a case are loaded one after the other from the SAME
+    # parsed documents (no copy, no re-parsing) through from_dicts, merge of per-document collections, and
+    # alternating from_dicts / merge / from_yaml(dump of the same documents); loading is a pure function of
+    # the documents, so the k-th load must give what a fresh load gives and leave its argument unchanged
+    for name in (("d22_gen", "chain3_gen", "mixed_generate", "fan") if quick else sorted(F)):
+        docs = F[name]
+        n = len(docs)
+        perms = all_perms(n) if n <= 5 else sample_perms(rng, n, 120 if quick else 360)
+        for path in ("from_dicts", "merge", "alt"):
+            for part in chunks(perms):
+                for r in (True, False):
+                    cases.append({"docs": docs, "perms": part, "path": path,
+                                  "mode": {"resolve": r, "conv": "direct" if r else "twice", "it": "list", "share": True}})
     # the kind of iterable handed to merge: every order of the witness sets x every kind x resolved / deferred
     for name in (("d22", "d22_filter", "chain3_gen") if quick else sorted(F)):
         docs = F[name]
@@ -339,6 +355,15 @@ def known_orders(c, r):
     return "C09-duplicate-key-last-document-wins" if dup_keys(c["docs"]) else None
 
 
+def py_oracle_orders(c, r):
+    """loading must not change the documents it is given (observed around every load of the case)"""
+    if isinstance(r, dict) and "res" in r:
+        for k, rs in enumerate(r["res"]):
+            if any(x.get("arg_same") is False for x in rs):
+                return f"the documents handed to the loader were modified by load number {k + 1} of the case"
+    return None
+
+
 def mutate_orders(c, rng):
     out = []
     n = len(c["docs"])
@@ -373,7 +398,7 @@ def stratum_orders(c, r):
         x = r["res"][0][0]
         kinds.append("ok" if "exc" not in x else x["phase"] + ":" + x["exc"])
     m = c.get("mode") or {}
-    return (c["path"] + ("[" + m.get("it", "list") + "]" if c["path"] != "from_yaml" else "") + "/"
+    return (c["path"] + ("[" + m.get("it", "list") + "]" if c["path"] != "from_yaml" else "") + ("[same documents]" if m.get("share") else "") + "/"
             + ("resolved-at-load" if m.get("resolve", True) else "resolution-deferred") + "+" + m.get("conv", "direct")
             + "/" + ("n<=6" if len(docs) <= 6 else "n>6") + "/" + "+".join(kinds))
 
@@ -410,7 +435,7 @@ PROPERTY = Property(
     pid="C09", props_file="Props/C09.v",
     suites=[
         Suite("orders", gen_orders, "run_orders", REQ, "judge_orders", orders_to_coq, known=known_orders,
-              mutate=mutate_orders, stratum=stratum_orders, shard=80),
+              mutate=mutate_orders, stratum=stratum_orders, shard=80, py_oracle=py_oracle_orders),
         Suite("orders_big", gen_orders_big, "run_orders", REQ, "judge_orders", orders_to_coq, known=known_orders,
               stratum=stratum_orders, shard=1),
         Suite("oldsort", gen_oldsort, "run_oldsort", REQ, "judge_oldsort", oldsort_to_coq, shard=400),
@@ -423,7 +448,9 @@ PROPERTY = Property(
          "collections, load_ruleset one file per document / two documents per file} x {references resolved while loading, resolution "
          "deferred to Backend.convert (resolve_references=False on every loader)} x {convert right after loading, after an explicit "
          "resolve_rule_references(), the same collection converted twice, a filter object appended to collection.rules} x kind of iterable "
-         "handed to merge / load_ruleset / from_dicts {list, generator, tuple, map, iterator, dict values view}; filter documents "
+         "handed to merge / load_ruleset / from_dicts {list, generator, tuple, map, iterator, dict values view} x {every load gets its own copy "
+         "of the parsed documents, all orders of a case loaded one after the other from the SAME parsed documents (from_dicts, merge, "
+         "alternating from_dicts/merge/from_yaml), the documents compared before/after each load}; filter documents "
          "(applying to no rule) among the documents; a case = rule set x path x mode x up to 24 orders "
          "(identity order first); non-trivial = at least one correlation rule, 2 documents and 2 orders; distinct by case hash",
     assumptions=[
